@@ -22,10 +22,6 @@ import (
 	"verifharness/vh"
 )
 
-type silent struct{}
-
-func (silent) Printf(string, ...interface{}) {}
-
 func asn1Chain(ders [][]byte) []ct.ASN1Cert {
 	out := make([]ct.ASN1Cert, len(ders))
 	for i, d := range ders {
@@ -77,7 +73,7 @@ func dsOf(d ct.DigitallySigned) []byte {
 
 // verifyReturned is the property itself, stated on what came back and on nothing else: signatures are
 // re-verified with std crypto over the independent encoding, the SCT against the SUBMITTED chain.
-func verifyReturned(w *World, s Step, res any) string {
+func verifyReturned(w *World, s Step, res any, altIDs [][]byte) string {
 	switch v := res.(type) {
 	case *ct.SignedTreeHead:
 		if v.Version != 0 {
@@ -90,7 +86,11 @@ func verifyReturned(w *World, s Step, res any) string {
 		if v.SCTVersion != 0 {
 			return fmt.Sprintf("SCT version %d", v.SCTVersion)
 		}
-		if !bytes.Equal(v.LogID.KeyID[:], w.LogID) {
+		idOK := bytes.Equal(v.LogID.KeyID[:], w.LogID)
+		for _, id := range altIDs {
+			idOK = idOK || bytes.Equal(v.LogID.KeyID[:], id)
+		}
+		if !idOK {
 			return fmt.Sprintf("SCT log id %x is not the hash %x of the configured key", v.LogID.KeyID[:], w.LogID)
 		}
 		if err := ref.Verify(w.Log.Public(), ref.SCTSignatureInput(v.Timestamp, w.Chains[s.Chain].Entry, v.Extensions), dsOf(v.Signature)); err != nil {
@@ -184,35 +184,39 @@ func digest(res any, err error) string {
 
 // runBehaviour executes the calls of one behaviour on ONE long-lived client (freshEach: on a new client per call, the
 // server being the same) and returns what each call handed back.
-// optionsFor fills the two key options of jsonclient.Options as LogClient.tla's KeyOptionTable says: the key the
-// documentation names ("If both ... are set, PublicKeyDER is used") is always the log's; under bothDifferent the PEM
-// option names the foreign key the server's classes sigByOtherKey / logIDForeign use.
-func optionsFor(w *World, config string) jsonclient.Options {
-	switch config {
-	case "der":
-		return jsonclient.Options{Logger: silent{}, PublicKeyDER: w.LogSPKI}
-	case "pem":
-		return jsonclient.Options{Logger: silent{}, PublicKey: w.LogPEM}
-	case "bothSame":
-		return jsonclient.Options{Logger: silent{}, PublicKeyDER: w.LogSPKI, PublicKey: w.LogPEM}
-	case "bothDifferent":
-		return jsonclient.Options{Logger: silent{}, PublicKeyDER: w.LogSPKI, PublicKey: w.OtherPEM}
-	}
-	panic("c12: unknown key option " + config)
-}
-
 func runBehaviour(w *World, beh []Step, config string, freshEach bool, rep *vh.Report, kinds map[string]bool) []string {
-	opts := optionsFor(w, config)
+	cf := w.configure(config, beh[0].Opt)
+	w = cf.w
 	holder := &swapRT{}
-	newClient := func() *client.LogClient {
-		lc, err := client.New("http://log.example/log/", &http.Client{Transport: holder}, opts)
-		if err != nil {
-			panic(err)
-		}
-		return lc
-	}
-	lc := newClient()
 	outcomes := make([]string, len(beh))
+	// THE CONSTRUCTION (LogClient.tla, Constructs): the standard options yield a client; any other key material may be
+	// refused - then there is no client and nothing to return.  A client that IS built is held to the specification's
+	// verdicts under the key the options name (nothing verifies under material that holds no key).
+	lc, cerr, p := construct(cf, holder)
+	tl := tallyOf(rep)
+	switch {
+	case p != nil:
+		rep.Violate("panic:construct:"+config, fmt.Sprintf("client.New panicked on the key option %s (%s key): %v", config, w.KeyType, p),
+			map[string]any{"behaviour": beh[:1], "step": 0, "keytype": w.KeyType, "config": config})
+		fallthrough
+	case cerr != nil:
+		if baseOption(config) {
+			panic(fmt.Sprintf("c12: the client cannot be built with the standard key option %s: %v", config, cerr))
+		}
+		tl.construction(config, w.KeyType, "refused")
+		for n := range outcomes {
+			outcomes[n] = "no client"
+		}
+		return outcomes
+	}
+	tl.construction(config, w.KeyType, "built")
+	newClient := func() *client.LogClient {
+		c, err, p := construct(cf, holder)
+		if err != nil || p != nil {
+			panic(fmt.Sprintf("c12: the key option %s built a client once and not again: %v %v", config, err, p))
+		}
+		return c
+	}
 	for n, s := range beh {
 		s.Config = config
 		if freshEach && n > 0 {
@@ -282,7 +286,7 @@ func runBehaviour(w *World, beh []Step, config string, freshEach bool, rep *vh.R
 			rep.Violate(fp("returned-ok"), desc+": a value was returned although no 200 answer was given", ctxt)
 			continue
 		}
-		bad := verifyReturned(w, s, res)
+		bad := verifyReturned(w, s, res, cf.altIDs)
 		if s.Expect == "error" {
 			rep.Violate(fp("returned-ok"), fmt.Sprintf("%s: the specification demands an error, the client returned %T %s", desc, res, note(bad)), ctxt)
 			continue
@@ -300,6 +304,51 @@ func runBehaviour(w *World, beh []Step, config string, freshEach bool, rep *vh.R
 		}
 	}
 	return outcomes
+}
+
+// construct builds the real client from a configured key option; a panic is caught and handed back.
+func construct(cf configured, rt http.RoundTripper) (lc *client.LogClient, err error, panicked any) {
+	defer func() {
+		if r := recover(); r != nil {
+			lc, panicked = nil, r
+		}
+	}()
+	lc, err = client.New("http://log.example/log/", &http.Client{Transport: rt}, cf.opts)
+	if err == nil && lc == nil {
+		err = errors.New("neither a client nor an error")
+	}
+	return lc, err, nil
+}
+
+// tally keeps what the constructions came to (evidence, not a verdict).
+type tally struct {
+	mu sync.Mutex
+	m  map[string]string
+}
+
+var (
+	tallies   = map[*vh.Report]*tally{}
+	talliesMu sync.Mutex
+)
+
+func tallyOf(rep *vh.Report) *tally {
+	talliesMu.Lock()
+	defer talliesMu.Unlock()
+	t, ok := tallies[rep]
+	if !ok {
+		t = &tally{m: map[string]string{}}
+		tallies[rep] = t
+	}
+	return t
+}
+
+func (t *tally) construction(config, keyType, outcome string) {
+	if baseOption(config) {
+		return
+	}
+	t.mu.Lock()
+	t.m[config+" ("+keyType+")"] = outcome
+	t.mu.Unlock()
 }
 
 // runBoth executes a behaviour on one long-lived client and, when it has more than one call, again with a fresh client
@@ -363,7 +412,9 @@ func TestReplay(t *testing.T) {
 	rep := vh.NewReport("c12-replay", "every (method, chain, answer script) of LogClient.tla, two-call sequences and the history sequences (three calls, "+
 		"the server replaying earlier bodies / signature bytes) replayed into real client.LogClient instances (ECDSA P-256 and RSA 2048 log keys, key "+
 		"given as DER or PEM) through a scripted RoundTripper, each sequence on one long-lived client and again on a fresh client per call; verdict "+
-		"value/error compared with the specification, every returned STH/SCT re-verified with std crypto over the independent encoding of the chain "+
+		"the client CONSTRUCTED from every key option of the specification (key material in every form, in either option; a refused construction "+
+		"ends the case, a built client is held to the verdicts), precertificate chains of every shape (signer x poison position x last extension x "+
+		"notAfter form, expected entry from harness/ref); value/error compared with the specification, every returned STH/SCT re-verified with std crypto over the independent encoding of the chain "+
 		"submitted by THAT call, errors checked for status and body, the two executions compared; non-trivial = distinct (method, failure layer, "+
 		"value/error) sets with a returned value")
 	shared := NewShared(vh.Rand(12))
@@ -373,6 +424,45 @@ func TestReplay(t *testing.T) {
 		b := w.Render("GetSTH", "none", "valid")
 		if len(b.Bytes) == 0 {
 			t.Fatal("harness renders an empty valid STH")
+		}
+	}
+	// the chain shapes of the input (LogClient.tla, AllShapes), built and checked against the specification's description
+	for _, beh := range behs {
+		for _, s := range beh {
+			if s.Shape != nil && s.Shape.K == "shape" {
+				if err := shared.EnsureShape(s.Chain, s.Shape); err != nil {
+					t.Fatal(err)
+				}
+			}
+		}
+	}
+	// the construction cases (KCASE): every key option of the specification is given to client.New in every world its
+	// forms exist in - no panic; what came of it is recorded (the verdicts are made on what a built client returns)
+	if kpath := os.Getenv("VERIF_KCASES"); kpath != "" {
+		kcases, err := vh.LoadNDJSON[KCase](kpath)
+		if err != nil {
+			t.Fatal(err)
+		}
+		for _, k := range kcases {
+			for _, w := range worlds {
+				if k.Opt == nil || !k.Opt.appliesTo(w.KeyType) {
+					continue
+				}
+				cf := w.configure(k.Config, k.Opt)
+				_, cerr, p := construct(cf, &swapRT{})
+				switch {
+				case p != nil:
+					rep.Violate("panic:construct:"+k.Config, fmt.Sprintf("client.New panicked on the key option %s (%s key): %v", k.Config, w.KeyType, p),
+						map[string]any{"kcase": k, "keytype": w.KeyType, "config": k.Config})
+				case cerr != nil && k.Opt.Construct == "built":
+					t.Fatalf("the client cannot be built with the standard key option %s: %v", k.Config, cerr)
+				case cerr != nil:
+					tallyOf(rep).construction(k.Config, w.KeyType, "refused")
+				default:
+					tallyOf(rep).construction(k.Config, w.KeyType, "built")
+				}
+				rep.Eval("")
+			}
 		}
 	}
 	workers := 16 * runtime.NumCPU() // calls that wait for the client's retry pause sleep, they do not compute
@@ -388,6 +478,9 @@ func TestReplay(t *testing.T) {
 				for wi, w := range worlds {
 					kinds := map[string]bool{}
 					config := behs[i][0].Config
+					if o := behs[i][0].Opt; o != nil && !baseOption(config) && !o.appliesTo(w.KeyType) {
+						continue // the form of the key material exists for the other key type only
+					}
 					if config == "" { // a behaviour recorded before the key options were part of the specification
 						config = []string{"der", "pem"}[(i+wi)%2]
 					}
@@ -424,6 +517,19 @@ func TestReplay(t *testing.T) {
 		rep.Sample(behs[len(behs)/2])
 	}
 	rep.Extra["outcome_kinds"] = len(allKinds)
+	tl := tallyOf(rep)
+	built, refused := []string{}, 0
+	for k, v := range tl.m {
+		if v == "built" {
+			built = append(built, k)
+		} else {
+			refused++
+		}
+	}
+	sort.Strings(built)
+	rep.Extra["key_material_options_refused"] = refused
+	rep.Extra["key_material_options_built"] = built
+	rep.Extra["chain_shapes"] = len(shared.Chains) - 4
 	if err := rep.Write(); err != nil {
 		t.Fatal(err)
 	}
